@@ -44,6 +44,11 @@ end PyDict
 /-- `int(v)` with the generated Unicode facts -/
 def optInt (v : PyVal) : Except PyErr Int := pyInt isSpace Gen.decStarts v
 
+/-- `not isinstance(v, str)` -/
+def notStr : PyVal → Bool
+  | .str _ => false
+  | _ => true
+
 /-- one stanza of `validate_options` -/
 def runOptRule (d : PyDict) : OptRule → Except PyErr PyDict
   | .choice key allowed =>
@@ -54,7 +59,7 @@ def runOptRule (d : PyDict) : OptRule → Except PyErr PyDict
     else
       let d1 := d.setAll (if v.truthy then ifTrue else ifFalse)
       .ok (if store then d1.set key v else d1)
-  | .intOpt key dflt noneSkips caught bound strict storeInside fill storeAfter =>
+  | .intOpt key dflt noneSkips caught bound strict storeInside fill storeAfter mustStr =>
     let v := d.getD key dflt
     if noneSkips && v == .none then .ok (if storeAfter then d.set key v else d)
     else
@@ -65,7 +70,8 @@ def runOptRule (d : PyDict) : OptRule → Except PyErr PyDict
         else
           let d1 := if storeInside then d.set key (.int i) else d
           let d2 := fill.foldl (fun d kd => d.set kd.1 (d.getD kd.1 kd.2)) d1
-          .ok (if storeAfter then d2.set key (.int i) else d2)
+          if mustStr.any (fun k => notStr (d2.getD k .none)) then .error .sqlParseError
+          else .ok (if storeAfter then d2.set key (.int i) else d2)
 
 def runOptRules : List OptRule → PyDict → Except PyErr PyDict
   | [], d => .ok d
